@@ -45,10 +45,12 @@ def codec_pairing(ctx, rep, rule: str) -> None:
     rep.floor(rule, "flat-key constructions in flatten", len(keys), 1)
     for fi, k in keys:
         is_dumps = isinstance(k, ast.Call) and A.callee_name(repo, m, k) == "json.dumps" and len(k.args) == 1 and not k.keywords
-        path_list = is_dumps and isinstance(k.args[0], ast.BinOp) and isinstance(k.args[0].op, ast.Add) and isinstance(k.args[0].right, ast.List) and len(k.args[0].right.elts) == 1 and _norm(k.args[0].left) == "parent_keys"
+        arg0 = ast.parse(A.expanded(fi.node, k.args[0], displays=True), mode="eval").body if is_dumps else None  # a named path (`child_keys = parent_keys + [key]`) is the path
+        path_list = is_dumps and isinstance(arg0, ast.BinOp) and isinstance(arg0.op, ast.Add) and isinstance(arg0.right, ast.List) and len(arg0.right.elts) == 1 and _norm(arg0.left) == "parent_keys"
         rep.ob(rule, "flat-key-is-json-of-whole-path", bool(is_dumps and path_list), fi.loc(k), f"flat key expression `{_norm(k)[:80]}` must be json.dumps(parent_keys + [key]): an injective encoding of the whole path that keeps int vs str keys (string concatenation / join / hand-rolled quoting is not injective for keys containing the separator or quotes)", sample=True)
     # recursion extends the path by exactly the child key
-    rec = [c for fi in A.local_callees(repo, fl) for c in A.calls(fi.node) if isinstance(c.func, ast.Name) and c.func.id == "flatten_with_parent_keys"]
+    rec_sites = [(fi, c) for fi in A.local_callees(repo, fl) for c in A.calls(fi.node) if isinstance(c.func, ast.Name) and c.func.id == "flatten_with_parent_keys"]
+    rec = [c for _, c in rec_sites]
     # the key appended is the key of the child being flattened: the helper's own `key` parameter, or the key variable of the
     # `.items()` iteration the recursion sits in (when the per-child helper is written inline)
     item_keys = {"key"}
@@ -58,7 +60,7 @@ def codec_pairing(ctx, rep, rule: str) -> None:
             for g in gens:
                 if _norm(g.iter).endswith(".items()") and isinstance(g.target, ast.Tuple) and g.target.elts and isinstance(g.target.elts[0], ast.Name):
                     item_keys.add(g.target.elts[0].id)
-    ok = any(_norm(A.keyword(c, "parent_keys")) in {f"parent_keys + [{k}]" for k in item_keys} for c in rec)
+    ok = any(" ".join(A.expanded(fi_.node, A.keyword(c, "parent_keys"), displays=True).split()) in {f"parent_keys + [{k}]" for k in item_keys} for fi_, c in rec_sites if A.keyword(c, "parent_keys") is not None)
     rep.ob(rule, "recursion-extends-path-by-child-key", ok, fl.loc(), "nested dicts are flattened with parent_keys + [key]")
     un = repo.func(f"{CKPT_MOD}:unflatten")
     loads = [n for n in A.walk_no_nested(un.node) if isinstance(n, ast.Assign) and isinstance(n.value, ast.Call) and A.callee_name(repo, un.module, n.value) == "json.loads"]
@@ -295,7 +297,7 @@ def leafless_not_required(ctx, rep, rule: str) -> None:
         for t, lab in conds:
             if t.kind != "test":
                 continue
-            test = t.ast.test
+            test = A.emptiness_normal(t.ast.test)  # flatten() returns a dict: `len(d) == 0` is `not d`
             neg = isinstance(test, ast.UnaryOp) and isinstance(test.op, ast.Not)
             core = test.operand if neg else test
             txt = _norm(core)
